@@ -33,11 +33,12 @@ Definition cig_sorted (o : pyout (list nat)) : pyout (list nat) :=
 
 (** Token form for a harness that compares numbers: [0 :: sorted result] for a normal return,
     [[1; k]] for an exception ([k] = 0 TypeError, 1 ValueError, 2 KeyError,
-    3 NodeDoesNotExistError, 4 EdgeDoesNotExistError, 5 NetworkXError), [[2]] for fuel. *)
+    3 NodeDoesNotExistError, 4 EdgeDoesNotExistError, 5 NetworkXError, 6 AssertionError, 7 IndexError), [[2]] for fuel. *)
 Definition cig_exc_code (e : pyexc) : nat :=
   match e with
   | PyTypeError => 0 | PyValueError => 1 | PyKeyError => 2
   | PyNodeDoesNotExistError => 3 | PyEdgeDoesNotExistError => 4 | PyNetworkXError => 5
+  | PyAssertionError => 6 | PyIndexError => 7
   end.
 Definition cig_tokens (o : pyout (list nat)) : list nat :=
   match o with
